@@ -121,6 +121,8 @@ type hSub struct {
 	sels    []model.Sel
 	field   string // the subscription field: listen | must (one event object per publish), batch | many (list-typed: a publish carries a slice)
 	current *int64 // the event being published by the (single) sequential publisher, for attribution
+	// given: what the subscription field's resolver received as its topic argument ("<none>" when it was not a string)
+	given string
 }
 
 // Match: events that are slices are published under ids starting with "B:" and concern the subscribers of the list-typed
@@ -213,8 +215,10 @@ func (s *subSubscriptions) Resolve(field *ggql.Field, args map[string]interface{
 	if h == nil {
 		return nil, fmt.Errorf("harness: no subscriber prepared")
 	}
+	h.given = "<none>"
 	if t, isS := args["topic"].(string); isS {
 		h.topic = t
+		h.given = t
 	}
 	return ggql.NewSubscription(h, field, args), nil
 }
@@ -420,6 +424,7 @@ func runC19(c *run.Ctx) {
 					reqVars = map[string]interface{}{"t": topic}
 				}
 				text := subRequestTextV(h.field, topic, h.sels, form)
+				c.Bucket("subscribe_request_form", []string{"plain", "inline-on-Subscription", "fragment-on-Subscription", "fragment-first", "topic-variable-default", "topic-variable-supplied", "selection-behind-fragment"}[form])
 				hist = append(hist, fmt.Sprintf("subscribe#%d topic=%s fail=%v %s", h.sid, topic, keysOfBool(h.failOn), strings.TrimSpace(text)))
 				var res map[string]interface{}
 				// a third of the subscription requests are made with a parsed executable that is kept and used again for the
@@ -464,6 +469,13 @@ func runC19(c *run.Ctx) {
 				}
 				if es, has := res["errors"]; has {
 					fail(fmt.Sprintf("subscription request rejected: %v", es))
+					bad = true
+					break
+				}
+				if h.given != topic {
+					// the registration is what the REQUEST says (literal, variable, variable default): a subscriber registered
+					// for another id than the one written would miss its events silently
+					fail(fmt.Sprintf("subscriber %d: the request subscribes to topic %q, the subscription field's resolver was given %q", h.sid, topic, h.given))
 					bad = true
 					break
 				}
